@@ -341,13 +341,13 @@ var propC09Ops = &h.Prop[C01Case]{ID: "C09", Rule: ruleC09, Gen: genC01, Check: 
 		o.NonTrivial()
 	}
 	if xd != nil && xd != zd {
-		if xs := h.Read(xd); xs.Malformed != "" || !xs.Val().Equal(c.X.Val()) || xs.Prec != c.X.P || xs.Mode != c.X.M {
-			return h.Failf("operand-modified", "%s changed its first operand: %v is now %v", c.Op, c.X, xs)
+		if xs := h.Read(xd); !xs.SameAll(c01Before[0]) {
+			return h.Failf("operand-modified", "%s changed its first operand: %v is now %v", c.Op, c01Before[0], xs)
 		}
 	}
 	if yd != nil && yd != zd {
-		if ys := h.Read(yd); ys.Malformed != "" || !ys.Val().Equal(c.Y.Val()) || ys.Prec != c.Y.P || ys.Mode != c.Y.M {
-			return h.Failf("operand-modified", "%s changed its second operand: %v is now %v", c.Op, c.Y, ys)
+		if ys := h.Read(yd); !ys.SameAll(c01Before[1]) {
+			return h.Failf("operand-modified", "%s changed its second operand: %v is now %v", c.Op, c01Before[1], ys)
 		}
 	}
 	if zs := h.Read(zd); zs.Prec != c.P || zs.Mode != c.M {
